@@ -14,8 +14,8 @@ from . import build, proto
 from .prng import Rng, run_seed
 
 VERIF = build.VERIF
-REPLAYS = os.path.join(VERIF, "replays")
-EVIDENCE = os.path.join(VERIF, "evidence")
+REPLAYS = os.environ.get("BTCSIM_REPLAY_DIR", os.path.join(VERIF, "replays"))
+EVIDENCE = os.environ.get("BTCSIM_EVIDENCE_DIR", os.path.join(VERIF, "evidence"))
 KNOWN = os.path.join(VERIF, "known_findings.json")
 
 
